@@ -205,3 +205,36 @@ Proof.
   - unfold ids. simpl. repeat (constructor; [simpl; intuition discriminate|]). constructor.
   - reflexivity.
 Qed.
+
+(* ---- NJ / UPGMA run to completion on the matrix of any tree ---- *)
+From DV Require Import Proofs.C14Clu.
+
+Lemma dget_map_vals {V W} (f : V -> W) k (d : dict V) :
+  dget k (map (fun kv => (fst kv, f (snd kv))) d) = option_map f (dget k d).
+Proof. induction d as [|[k' v] r IH]; simpl; [reflexivity|]. destruct (Z.eqb k k'); [reflexivity | exact IH]. Qed.
+
+Lemma tget2_map_vals {V W} (f : V -> W) a b (T : tbl V) :
+  tget2 a b (map (fun r => (fst r, map (fun kv => (fst kv, f (snd kv))) (snd r))) T) = option_map f (tget2 a b T).
+Proof.
+  unfold tget2. induction T as [|[k row] r IH]; simpl; [reflexivity|].
+  destruct (Z.eqb a k); [apply dget_map_vals | exact IH].
+Qed.
+
+Lemma qtable_get p w a b :
+  tget2 a b (qtable p w) = if w then option_map uq (tget2 a b (p_dist p)) else option_map inject_Z (tget2 a b (p_steps p)).
+Proof. unfold qtable. destruct w; apply tget2_map_vals. Qed.
+
+Lemma clustering_total_p t p w order :
+  good_leaves t -> t_kids t <> [] -> compile_from_tree t = Ok p ->
+  NoDup order -> order <> [] -> (forall a, In a order -> In (Some a) (leaf_taxa t)) ->
+  (exists T, nj_tree (qtable p w) order = Ok T) /\ (exists T, upgma_tree (qtable p w) order = Ok T).
+Proof.
+  intros G Hk E N Ne Hin. destruct (pdm_exact_p t G Hk) as [p' [E' [Hv _]]]. rewrite E in E'. inversion E'. subst p'.
+  assert (C : mcomplete (qtable p w) order).
+  { intros a b Ha Hb _. destruct (Hv a b (Hin a Ha) (Hin b Hb)) as [r [d [s [_ [_ [_ [T1 [T2 _]]]]]]]].
+    rewrite qtable_get, T1, T2. destruct w; discriminate. }
+  assert (S : msymmetric (qtable p w) order).
+  { intros a b Ha Hb _. unfold mval. rewrite !qtable_get.
+    destruct (pdm_sym_p t p G Hk E a b) as [S1 [S2 _]]. rewrite S1, S2. reflexivity. }
+  split; [apply nj_tree_total_l | apply upgma_tree_total_l]; assumption.
+Qed.
